@@ -91,6 +91,7 @@ type BehavCheck struct {
 	// OwnFindings are the finding ids that belong to this property.
 	OwnFindings map[string]bool
 	Deadline    time.Duration
+	ParkPoints  []string
 	PostRun     func(ev *Evidence) (violations []string, known []string, err error)
 }
 
@@ -148,7 +149,7 @@ type result struct {
 }
 
 func (c *BehavCheck) runOne(b *model.Behaviour, cfg exec.Config, execSeed int64) (*exec.Outcome, exec.Stats) {
-	e := &exec.Executor{Cfg: cfg, Cls: c.Classes, Seed: execSeed, Extra: c.Extra}
+	e := &exec.Executor{Cfg: cfg, Cls: c.Classes, Seed: execSeed, Extra: c.Extra, ParkPoints: c.ParkPoints}
 	dl := c.Deadline
 	if dl == 0 {
 		dl = 20 * time.Second
@@ -234,7 +235,11 @@ func (c *BehavCheck) Run() int {
 	}
 	results := make([]result, len(jobs))
 	var wg sync.WaitGroup
-	sem := make(chan struct{}, 14)
+	par := 14
+	if len(c.ParkPoints) > 0 {
+		par = 1 // the yield hook of the library is one package-level variable
+	}
+	sem := make(chan struct{}, par)
 	for i := range jobs {
 		wg.Add(1)
 		sem <- struct{}{}
